@@ -32,6 +32,31 @@ type Outcome struct {
 	raw *interpreter.ExecutionResult // kept for Recheck
 }
 
+// Scribble is what a caller may legally do with a result it owns: write into its maps, its
+// postings and their amounts. Nothing of that may be visible to any other run.
+func (o Outcome) Scribble() {
+	if o.raw == nil {
+		return
+	}
+	if o.raw.Metadata != nil {
+		o.raw.Metadata["zz_scribbled_by_caller"] = interpreter.String("x")
+	}
+	if o.raw.AccountsMetadata != nil {
+		o.raw.AccountsMetadata["zz_scribbled_by_caller"] = interpreter.AccountMetadata{"k": "v"}
+		for _, m := range o.raw.AccountsMetadata {
+			if m != nil {
+				m["zz_scribbled_key"] = "v"
+			}
+		}
+	}
+	for i := range o.raw.Postings {
+		if o.raw.Postings[i].Amount != nil {
+			o.raw.Postings[i].Amount.SetInt64(-7777)
+		}
+		o.raw.Postings[i].Source = "zz_scribbled"
+	}
+}
+
 // Recheck renders the result object again (later, after other runs have
 // finished) and reports whether it still reads as it did when it was returned.
 func (o Outcome) Recheck() (string, bool) {
